@@ -313,3 +313,46 @@ RULES = [
     ("C13.UNICODE", "checked scalar-value conversion mapped to an Error", rule_unicode),
     ("C13.ERRFLOW", "fallible calls on the run/check path propagate their errors", rule_errflow),
 ]
+
+
+def rule_diag(ctx, R):
+    """a failure ends with a diagnostic: the error printer writes the message of every error, unconditionally,
+    before the process exits with status 1"""
+    from .interp import normal_cfg
+    from .templates import templates_of
+    fb = ctx.fb_all
+    IO = "hyeong::util::io::"
+    pe = fb.bodies.get(IO + "print_error")
+    if R.anchor(pe is not None, "print_error", "io::print_error"):
+        R.analyse(pe.name)
+        cfg = normal_cfg(pe)
+        prints = [bi for bi, t in pe.calls() if callee_name(t["f"], fb) in (IO + "print_error_no_exit", IO + "print_error_str_no_exit")]
+        exits = [bi for bi, t in pe.calls() if callee_name(t["f"], fb) == "std::process::exit"]
+        R.check(bool(prints) and bool(exits) and not any(reaches_without(cfg, [0], x, cut_blocks=prints) for x in exits), "diag:print_before_exit", "print_error prints the diagnostic on every path before it exits", pe.span)
+    pn = fb.bodies.get(IO + "print_error_no_exit")
+    if R.anchor(pn is not None, "print_error_no_exit", "io::print_error_no_exit"):
+        R.analyse(pn.name)
+        cfg = normal_cfg(pn)
+        roles = Roles(pn, fb, param_roles={1: "W", 2: "ERR"})
+        msgs = [bi for bi, t in pn.calls() if callee_name(t["f"], fb) == IO + "print_error_str_no_exit" and "Error::get_msg(ERR)" in roles.of_operand(t["args"][1], bi)]
+        R.check(bool(msgs) and not reaches_without(cfg, [0], cfg.returns, cut_blocks=msgs), "diag:message_unconditional", "print_error_no_exit prints the error's message on every path (whether or not the error carries a note)", pn.span)
+    ps = fb.by_path.get(IO + "print_error_str_no_exit") if hasattr(fb, "by_path") else None
+    cands = [b for n, b in fb.bodies.items() if n.startswith(IO + "print_error_str_no_exit")]
+    if R.anchor(bool(cands), "print_error_str_no_exit", "io::print_error_str_no_exit"):
+        b = cands[0]
+        R.analyse(b.name)
+        cfg = normal_cfg(b)
+        roles = Roles(b, fb, param_roles={1: "W", 2: "MSG"})
+        shows = []
+        try:
+            for t in templates_of(b, fb, roles.org):
+                if any(roles.of_origin(a) == "MSG" for a in t.args):
+                    shows.append(t.block)
+        except Exception as e:
+            R.fail("diag:templates", "templates of print_error_str_no_exit cannot be recovered: %s" % e, b.span)
+        writes = [bi for bi, t in b.calls() if callee_name(t["f"], fb).endswith("write_fmt")]
+        show_writes = [w for w in writes if any(reaches_without(cfg, [sb], w, cut_blocks=[x for x in writes if x != w]) for sb in shows)]
+        R.check(bool(show_writes) and not reaches_without(cfg, [0], cfg.returns, cut_blocks=show_writes), "diag:message_written", "print_error_str_no_exit writes the message text itself on every path", b.span)
+
+
+RULES.append(("C13.DIAG", "a failing run ends with a diagnostic: the message of every error is printed unconditionally before exit(1)", rule_diag))
